@@ -11,6 +11,7 @@ run (`Generated/RollingPlan.lean`, translate/c_index.py): they must be exactly t
 Reads outside buffers, UB beyond index arithmetic and the remaining routines are exercised with
 red zones and ASan/UBSan by the harness (validation / failing-input search, not proof).
 -/
+import Dtaiverif.Props.CBand
 import Dtaiverif.Proofs.Rolling
 import Dtaiverif.Proofs.Compact
 import Dtaiverif.Proofs.Path
